@@ -299,6 +299,20 @@ def run_shard(shard):
             run_same_instant(acc, pendulum, inst, shard["thorough"])
         acc.sample({"same_instant_starts_in": list(SAME_INSTANT_ZONES), "instant": obs.iso(shard["instants"][0])})
         return acc.result()
+    if shard.get("kind") == "allzones":
+        # every zone of the database: day steps that land on a wall time skipped by the zone's latest spring-forward gaps
+        for z in shard["zones"]:
+            gaps = [tr for tr in seeds.zone_transitions(z) if tr[2] > tr[1] and tr[2] - tr[1] <= 7200 and 946684800 < tr[0] < 2082758400][-2:]
+            for t, ob, oa in gaps:
+                mid = (t + ob + (oa - ob) // 2) * US
+                for dd, sign, mode in ((-2, 1, "forward"), (2, -1, "inverted")):
+                    f = seeds.fields_of_wall(mid + dd * 86400 * US)
+                    acc.c["states"] += 1
+                    acc.c["nontrivial"] += 1
+                    for unit, n, span in (("days", 1, {"days": 4}), ("days", 2, {"days": 4}), ("weeks", 1, {"days": 15})):
+                        check_range(acc, pendulum, z, f, span, sign, mode, unit, n)
+        acc.sample({"all_zones_gap_landing_steps": shard["zones"][:3]})
+        return acc.result()
     if shard.get("kind") == "limits":
         for z in ("date", None, "UTC"):
             check_limits(acc, pendulum, z)
@@ -355,6 +369,7 @@ def plan(tier, seed):
           ((2023, 1, 30), (2024, 2, 28), (2023, 12, 31), (2023 + seed % 3, 3, 30))]
     shards += [{"kind": "same-instant", "instants": [i], "thorough": thorough} for i in si]
     shards.append({"kind": "limits"})
+    shards += [{"kind": "allzones", "zones": ch} for ch in seeds.chunks(list(seeds.all_zones()), 8)]
     return [({"ext": 1, "tz": "sys"}, shards), ({"ext": 0, "tz": "sys"}, py if thorough else py[::2] + py[1::4])]
 
 
